@@ -83,3 +83,40 @@ def oracle_threads(case, obs):
 FAMILIES.append(Family("threads", gen_threads, impl_threads, None, None, oracle_threads,
                        lambda case, obs: json.dumps(case) if isinstance(obs, dict) and obs.get("n_failed", 0) >= 2 else None,
                        shard=30, case_timeout=30, describe=lambda c: "threads:%d:%s" % (c["k"], c["bad"])))
+
+
+# ---- destinations added while messages are already buffered / actions are open (op-level scripts) ----
+from lib import oplists
+
+
+def gen_late(rng, tier):
+    return [oplists.gen_script(rng, late_add=True, n_ops=rng.randrange(6, 20), fault=0.9) for _ in range(60 if tier == "quick" else 1000)]
+
+
+def oracle_late(case, obs):
+    bad = oracles.note_failures(obs, ("logging_raised", "foreign_exception", "render_mismatch"))
+    if bad:
+        return bad
+    ids = sorted(obs["raw"])
+    if not ids:
+        return None
+    ref = obs["dests"][0][1]
+    for did, ms in obs["dests"][1:]:
+        if ms != ref:
+            return "destinations registered by the same add were offered different sequences"
+    raw = obs["raw"][ids[0]]
+    n_reports = sum(1 for m in raw if m.get("message_type") == "eliot:destination_failure")
+    n_failures = 0
+    for i in ids:
+        for j, m in enumerate(obs["raw"][i]):
+            if obs["fails"][i][j] and m.get("message_type") != "eliot:destination_failure":
+                n_failures += 1
+    if n_reports != n_failures:
+        return "%d destination failures on ordinary messages (incl. replayed buffered ones) but %d reports" % (n_failures, n_reports)
+    return None
+
+
+FAMILIES.append(Family("late_add", gen_late, oplists.run_case, oplists.model_expr, oplists.model_obs, oracle_late,
+                       lambda case, obs: json.dumps(case["ops"]) if isinstance(obs, dict) and any(any(f) for f in obs.get("fails", {}).values()) else None,
+                       imports=["Model.Core", "Model.Prog"], project=oplists.project, describe=oplists.describe,
+                       shard=30, coq_shard=60))
